@@ -12,6 +12,7 @@ def build_cases(ctx, reg):
     cases = iosuite.corpus_cases("C01")
     cases += iogen.scalar_matrix(g)
     cases += iosuite.strings_family(g)
+    cases += iosuite.utf8_shapes_family(g, quick)
     cases += iosuite.maps_family(g)
     cases += iosuite.times_family(g)
     cases += iosuite.probe_family(g)
